@@ -155,7 +155,10 @@ CLAIMED = {
              "exclusion (writer overlaps nobody, readers only readers), every request granted exactly once, deadlock "
              "freedom, and that both counter domains are clean at the end (state, readers_wait, readers_pass, queues), "
              "plus data-race freedom of the plain fields and of the protected cell; executions of real coroutines on a "
-             "harness pool are enumerated under the controlled scheduler and validated against the specification by TLC.",
+             "harness pool are enumerated under the controlled scheduler and validated against the specification by TLC. "
+             "Spinlock.tla (+MC, liveness, Trace) is the internal lock as a component of its own, validated on the real "
+             "yaclib::detail::Spinlock with 2-4 threads; every scenario also runs against the library built without "
+             "symmetric transfer.",
         note=CONC_NOTE + "; 2-4 coroutines x 1-3 rounds, 1-3 workers; spin loops scheduled fairly", design="7/C15",
         technique="TLA+ spec + TLC model checking; schedule enumeration on the code with TLC trace validation"),
     "C16": dict(
@@ -171,11 +174,14 @@ CLAIMED = {
         technique="TLA+ spec + TLC model checking; schedule enumeration on the code with TLC trace validation"),
     "C17": dict(
         text="FiberSched.tla defines every scheduling decision of the fiber scheduler as a function of (list contents, random "
-             "draw, pick width) and TLC checks the function is total; four client programs (thread pool + WhenAll, strand, "
-             "timed waits, coroutines with Mutex) run under the backend's own seeded scheduler with observation hooks, every "
+             "draw, pick width) and TLC checks the function is total; eight client programs (thread pool + WhenAll, strand, "
+             "timed waits, equal deadlines, coroutines with Mutex, CAS loops) run under the backend's own seeded scheduler with observation hooks, every "
              "recorded draw / pick / resumption / injected yield is validated against FiberSched_Trace by TLC, and the "
              "normalised decision traces and results are compared pairwise: two fresh processes, the same process after "
-             "SetSeed + injector reset, and fresh processes restored from every recorded (random-count, injector-state) pair.",
+             "SetSeed + injector reset, one long-lived scheduler across runs (virtual time not reset), and fresh processes restored "
+             "from every recorded (random-count, injector-state) pair. The client programs run on a heap that never reuses an "
+             "address (and allocates downwards in the second in-process run), so that they are pure functions themselves while "
+             "any library decision by address still shows.",
         note="grid of seeds x frequencies {1,2,3,4,5,16} x widths {1,2,3,10} x sleep times {1,7,200}; fiber ids normalised by first appearance; "
              "trusted: TLC, observation hooks, harness/sc_repro.cpp", design="7/C17",
         technique="TLA+ decision function + TLC trace validation of recorded scheduler decisions; differential re-execution"),
@@ -193,9 +199,12 @@ CLAIMED = {
              "explores all operation sequences up to the depth bound from boundary initial values, checks the CAS and "
              "fetch/assign contracts on the transcription and prints every sequence with expected return, stored and "
              "`expected` values; each sequence is executed on yaclib_std::atomic<T> in the FIBER re-implementation and the "
-             "THREAD wrapper (forced/forbidden spurious weak-CAS failures through the hook) and on std::atomic<T> itself.",
+             "THREAD wrapper (forced/forbidden spurious weak-CAS failures through the hook) and on std::atomic<T> itself. "
+             "Floating values whose sums are rounded, absorbed or overflow form two more kinds (fx32 / fx64): a value is an "
+             "index into a table of IEEE-754 sums computed independently of the library (Atomic_fgen.tla, vlib/ieee.py), so "
+             "the reference semantics still states fetch_add = (old, correctly rounded old + arg).",
         note="one thread; 12 types + atomic_flag (test_and_set / clear) with atomic_thread_fence / atomic_signal_fence in the "
-             "sequences; floating types with integer-valued operands; atomic_flag::test and wait / notify (futex builds) "
+             "sequences; floating types with integer-valued operands and with tabulated inexact sums (no NaN, no CAS there); atomic_flag::test and wait / notify (futex builds) "
              "not enumerated; trusted: "
              "TLC, harness/sc_atomic.cpp", design="7/C19",
         technique="TLA+ reference semantics; TLC-enumerated operation sequences replayed on both backends"),
@@ -204,8 +213,10 @@ CLAIMED = {
              "one copy of the value per read out of a SharedFuture, otherwise none); TLC prints the bounds per program and "
              "operator new / value copies are counted while the real API executes each program. Cost.tla states the "
              "rules for combinators (WhenAll / WhenAny / Join, every policy and form: blocks bounded by a constant "
-             "independent of the number of inputs) and for Wait / WaitFor / Get / Strand submission / co_await (no "
-             "allocation); the harness measures every call for n = 1..N and TLC evaluates the rules on the measurements.",
+             "independent of the number of inputs, with every input succeeding and with a failing input) and for Wait / "
+             "WaitFor / WaitUntil over Future and FutureOn elements in range, (begin, n) and variadic forms / Get / Strand "
+             "submission / co_await (no allocation); the harness measures every call for n = 1..N and TLC evaluates the rules "
+             "on the measurements.",
         note=SEQ_NOTE + "; measurements n = 1..12 (quick) / 1..64 (thorough)", design="7/C20",
         technique="TLA+ cost annotation / cost rules; TLC-enumerated programs and recorded measurements checked by TLC"),
 }
